@@ -341,8 +341,8 @@ class Check:
                                "rerun": "bin/check %s --tier %s" % (self.pid, self.tier)}, fh, indent=1)
                 print("VIOLATION property=%s replay=%s" % (self.pid, path))
                 print("  site=%s aspect=%s detail=%s" % (v["site"], v["aspect"], str(v["detail"])[:400]))
-                if len(seen) >= 25:
-                    print("  ... (%d further distinct failing (site,aspect) pairs not listed)" % (len({(x['site'], x['aspect']) for x in violations}) - 25))
+                if len(seen) >= 400:
+                    print("  ... (%d further distinct failing (site,aspect) pairs not listed)" % (len({(x["site"], x["aspect"]) for x in violations}) - 400))
                     break
             rc = 1
         self.cov["rule"] = rule or self.cov["rule"]
